@@ -493,9 +493,21 @@ def expand(key, cfg, reverse=False, prune=None, focus=None):
                     exp = numpy.concatenate([d, o]) if d.ndim == o.ndim else None
                     check_result(s, exp, opd, ctx, "append", chosen_common=True)
                     unchanged(okey, other, "operand", opd, ctx, "append")
+                    if ctx.focus in (None, "C07"):
+                        wellformed(other, o, dict(opd, operand_after=True), ctx, "append-operand")
                     alias_check([other], s, opd, ctx, "append")
                 except Exception as e:  # noqa
                     ctx.v("C06", "append:raised", opd, repr(e))
+
+    # the same index in both roles
+    if 0 < nrows and 2 * nrows <= R:
+        s = fresh()
+        opd = {"op": "append", "other": "self"}
+        try:
+            s.append(s)
+            check_result(s, numpy.concatenate([d, d]), opd, ctx, "append", chosen_common=True)
+        except Exception as e:  # noqa
+            ctx.v("C06", "append:raised", opd, repr(e))
 
     # --- update -----------------------------------------------------------------------------------------
     cells = cells_of(shape)
